@@ -202,7 +202,7 @@ def damage_bytes(data, rnd, lo, hi, k):
 # --------------------------------------------------------------------------
 
 def image_facts(data):
-    f = dict(refs=[], dirs=[], files=[], finodes=[], paths=[], xattr_ids=0, ids=0, nfrags=0, meta_inode=[], meta_dir=[], super={})
+    f = dict(refs=[], dirs=[], files=[], finodes=[], paths=[], byname={}, xattr_ids=0, ids=0, nfrags=0, meta_inode=[], meta_dir=[], super={})
     try:
         im = S.Image(data, lenient=True)
     except Exception:
@@ -226,6 +226,7 @@ def image_facts(data):
             f["finodes"].append((n.size or 0, n.blocks_start or 0, n.frag_idx if n.frag_idx is not None else S.NOID,
                                  n.frag_off or 0, list(n.block_sizes or [])))
         f["paths"].append(p.decode("latin-1") if isinstance(p, bytes) else p)
+        f["byname"][f["paths"][-1].strip("/")] = n.ref
     f["xattr_ids"] = len(getattr(im, "xattr_ids", []) or [])
     f["ids"] = len(im.ids or [])
     f["nfrags"] = len(im.frags or [])
@@ -314,7 +315,7 @@ def raw_data_ops(rnd, f):
         elif r < 0.75:
             out.append("RG %s" % t)
         elif r < 0.87:
-            out.append("RT %s %d" % (t, rnd.choice([0, 1000, bs, 77, bs + 1])))
+            out.append("RT %s %d" % (t, rnd.choice([0, max(1000, bs // 8), bs, max(77, bs // 32), bs + 1])))
         else:
             sl = rnd.randrange(4)
             out.append("RTO %d %s" % (sl, t))
@@ -401,7 +402,7 @@ def gen_ops(rnd, f, n, meta_only=False, with_L=True):
             return ["G %d" % ref] * rnd.choice([1, 1, 2])
         if r < 0.78:
             ref, sz, nb = rnd.choice(files)
-            return ["T %d %d" % (ref, rnd.choice([0, 1000, bs, 77]))]
+            return ["T %d %d" % (ref, rnd.choice([0, max(1000, bs // 8), bs, max(77, bs // 32)]))]
         if r < 0.83:
             sl = rnd.randrange(4)
             ref, sz, nb = rnd.choice(files)
@@ -432,6 +433,38 @@ def gen_ops(rnd, f, n, meta_only=False, with_L=True):
             ops += raw_data_ops(rnd, f)
         else:
             ops += api_op()
+    return ops
+
+
+def corpus_ops(kind, f):
+    """stored minimal histories of earlier failures (F02, F03, the seeded fragment-index bug, readdir without
+    seek); they run first on the crafted images, whatever the seed"""
+    s = f["super"]
+    its, dts = s["inode_table_start"], s["dir_table_start"]
+    ops = ["M 0 %d %d" % (its, dts)]
+    if kind == "many" and len(f["meta_inode"]) >= 2 and f["refs"]:
+        a = min(f["refs"])
+        blk1 = f["meta_inode"][1] - its
+        bad = (blk1 << 16) | 8000
+        ops += ["I %d" % a, "I %d" % bad, "I %d" % a,
+                "MQ 0 %d 0 16" % f["meta_inode"][0], "MS 0 %d 8000" % f["meta_inode"][1], "MQ 0 %d 0 16,16" % f["meta_inode"][0],
+                "MR 0 100", "MP 0", "MR 0 20000"]
+        d = s["root_ref"]
+        ops += ["DO 0 %d" % d, "DR 0 1", "I %d" % a, "DO 1 %d" % f["byname"].get("sub", d), "DR 1 1", "DR 0 2", "DR 1 5", "DR 0 1"]
+    if kind == "alias":
+        bn = f["byname"]
+        if "a" in bn and "b" in bn and "c" in bn:
+            ops += ["F %d 0 100" % bn["a"], "F %d 0 100" % bn["b"], "F %d 0 100" % bn["c"], "F %d 0 100" % bn["a"],
+                    "T %d 0" % bn["b"], "F %d 10 20" % bn["c"]]
+        if "s0" in bn and "bad" in bn:
+            ops += ["G %d" % bn["s0"], "G %d" % bn["bad"], "G %d" % bn["bad"], "F %d 0 10" % bn["bad"], "G %d" % bn["s0"],
+                    "T %d 0" % bn["bad"], "TO 0 %d" % bn["s1"], "TR 0 10", "G %d" % bn["bad"], "TR 0 1000"]
+    if kind == "twofrag":
+        fs = sorted(f["byname"].items())
+        cnt, st = s["frag_count"], s["frag_table_start"]
+        if fs:
+            ops += ["G %d" % fs[0][1], "L %d %d" % (st, max(0, cnt - 1)), "G %d" % fs[-1][1], "G %d" % fs[0][1],
+                    "L %d %d" % (st, 0), "G %d" % fs[0][1], "F %d 0 50" % fs[0][1], "L %d %d" % (st, cnt), "G %d" % fs[-1][1]]
     return ops
 
 
@@ -487,8 +520,11 @@ def evaluate(ctx, h, drv, case, stats):
         return probs
     out_m = None
     if drv and not any("openfail" in l for l in out_l[:3]):
-        rc_m, out_m, err_m = run_prog(["sh", "-c", "ulimit -s 4000000 2>/dev/null || ulimit -s unlimited 2>/dev/null; exec \"$0\" \"$1\"", drv, case.path], case.ops)
-        if rc_m != 0:
+        rc_m, out_m, err_m = run_prog(["sh", "-c", "ulimit -s 4000000 2>/dev/null || ulimit -s unlimited 2>/dev/null; exec \"$0\" \"$1\"", drv, case.path], case.ops, timeout=90)
+        if rc_m == 124:          # too slow on this image (large block size): model not evaluated, search oracle still is
+            stats["model_timeouts"] = stats.get("model_timeouts", 0) + 1
+            out_m = None
+        elif rc_m != 0:
             probs.append(("model-crash", len(case.ops) - 1, "model driver died rc=%d: %s" % (rc_m, err_m[-800:])))
             out_m = None
     for i, op in enumerate(case.ops):
@@ -571,12 +607,18 @@ def run(ctx):
     h = B.compile_harness(info, [os.path.join(HERE, "h_reader.c")], "h_reader_c10")
     with core.Lock("coq"):     # everything the extraction needs, against the current Constants.vo
         core.coq_make(["C10/ApiModel.vo", "C10/DataModel.vo", "C10/ClientModel.vo", "C10/MetaModel.vo"])
-    try:
-        drv = core.build_model_driver("C10", "ExtractC10.v", os.path.join(HERE, "driver.ml"),
-                                      stubs_c=os.path.join(HERE, "stubs.c"), cclibs=["-lz", "-llzma", "-llz4", "-lzstd"])
-    except Exception as e:   # model does not extract/build: the tie is broken, search still runs
-        drv = None
-        ctx.tie_broken.append("model driver: %r" % (e,))
+    drv = None
+    for attempt in (1, 2):
+        try:
+            drv = core.build_model_driver("C10", "ExtractC10.v", os.path.join(HERE, "driver.ml"),
+                                          stubs_c=os.path.join(HERE, "stubs.c"), cclibs=["-lz", "-llzma", "-llz4", "-lzstd"])
+            break
+        except Exception as e:   # model does not extract/build: the tie is broken, search still runs
+            if attempt == 1:     # a concurrently running check may have rebuilt Gen/Constants.vo under us: rebuild once
+                with core.Lock("coq"):
+                    core.coq_make(["C10/ApiModel.vo", "C10/DataModel.vo", "C10/ClientModel.vo", "C10/MetaModel.vo"])
+                continue
+            ctx.tie_broken.append("model driver: %r" % (e,))
     ctx.trusted += ["props/C10/h_reader.c (op executor, long-lived and fresh mode), props/C10/driver.ml + stubs.c (I/O glue; "
                     "decompressor oracle bound to system zlib/liblzma/liblz4/libzstd with the calling conventions of lib/sqfs/src/comp/*.c)",
                     "vlib/sqfsimg.py (image facts used to aim the ops; Builder for crafted images)",
@@ -587,6 +629,16 @@ def run(ctx):
                         "sqfs_file_t.read_at is the pread loop of lib/sqfs/src/io/file.c on a file that does not change; file size < 2^63",
                         "SQFS_DIR_READER_DOT_ENTRIES (documented history-dependent inode-number cache, include/sqfs/dir_reader.h) "
                         "is outside the statement: readers are created with flags = 0"]
+    # private copies: the shared build / extraction caches are pruned and rebuilt by concurrently running checks
+    import shutil
+    def private(path, name):
+        dst = os.path.join(ctx.scratch, name)
+        shutil.copy2(path, dst)
+        return dst
+    h = private(h, "h_reader")
+    if drv:
+        drv = private(drv, "model_driver")
+    info = dict(info, tools=dict(info["tools"], gensquashfs=private(info["tools"]["gensquashfs"], "gensquashfs")))
     ctx.log("built harness and model driver")
     rnd = random.Random(ctx.seed)
     stats = dict(ops=0, cmp_fresh=0, cmp_model=0, ok_answers=0)
@@ -605,6 +657,7 @@ def run(ctx):
             p = os.path.join(ctx.scratch, nm + ".sqfs")
             open(p, "wb").write(data)
             f = image_facts(data)
+            cases.append(Case("%s-corpus" % nm, p, corpus_ops(nm, f), "corpus"))
             for k in range(12 if quick else 40):
                 cases.append(Case("%s-h%d" % (nm, k), p, gen_ops(rnd, f, 120 if quick else 250), "crafted"))
             cases.append(Case("%s-meta" % nm, p, gen_ops(rnd, f, 150 if quick else 600, meta_only=True), "crafted"))
@@ -630,8 +683,9 @@ def run(ctx):
                 continue
             data = open(p, "rb").read()
             f = image_facts(data)
+            nops = 120 if quick else (250 if bs <= 16384 else 60)
             for k in range(10 if quick else 40):
-                cases.append(Case("%s-h%d" % (nm, k), p, gen_ops(rnd, f, 120 if quick else 250), "real"))
+                cases.append(Case("%s-h%d" % (nm, k), p, gen_ops(rnd, f, nops), "real"))
             # api_agree on every file of the library-written image
             cases.append(Case("%s-agree" % nm, p, ["A %d" % ref for ref, sz, nb in f["files"]][:400], "agree"))
             s = f["super"]
@@ -639,7 +693,7 @@ def run(ctx):
                 dd = damage_bytes(data, rnd, 96 if rnd.random() < 0.3 else s["inode_table_start"], s["bytes_used"], rnd.choice([1, 3, 10]))
                 pd = os.path.join(ctx.scratch, "%s-dmg%d.sqfs" % (nm, k))
                 open(pd, "wb").write(dd)
-                cases.append(Case("%s-dmg%d" % (nm, k), pd, gen_ops(rnd, f, 80 if quick else 150), "damaged"))
+                cases.append(Case("%s-dmg%d" % (nm, k), pd, gen_ops(rnd, f, 80 if quick else (150 if bs <= 16384 else 50)), "damaged"))
 
     ctx.log("%d cases" % len(cases))
     dist = {}
@@ -651,8 +705,8 @@ def run(ctx):
     with ThreadPoolExecutor(max_workers=8) as ex:
         all_probs = list(ex.map(lambda ic: evaluate(ctx, h, drv, ic[1], per_case_stats[ic[0]]), enumerate(cases)))
     for st in per_case_stats:
-        for k in stats:
-            stats[k] += st[k]
+        for k in st:
+            stats[k] = stats.get(k, 0) + st[k]
     for case, probs in zip(cases, all_probs):
         dist[case.kind] = dist.get(case.kind, 0) + 1
         if case.kind == "agree":
@@ -661,8 +715,14 @@ def run(ctx):
             for i, l in enumerate(out):
                 if l and " AGREE" not in l and " skip" not in l:
                     probs.append(("api-disagree", i, "library-written image, file ref %s: %s" % (case.ops[i], strip(l))))
-        if len(samples) < 3 and not probs:
-            samples.append(dict(image=case.name, op=case.ops[min(5, len(case.ops) - 1)]))
+        if len(samples) < 4 and not probs and case.kind in ("real", "crafted", "damaged", "corpus") and len(samples) == len(set(x["kind"] for x in samples)) \
+                and case.kind not in set(x["kind"] for x in samples):
+            want = {"corpus": ("I",), "crafted": ("DL", "MQ"), "damaged": ("I", "DL"), "real": ("X", "F", "T")}[case.kind]
+            k = next((i for i, o in enumerate(case.ops) if i > 3 and o.split(" ")[0] in want), min(7, len(case.ops) - 1))
+            rc1, o1, _ = run_prog([h, case.path, "long"], case.ops[:k + 1])
+            rc2, o2, _ = run_prog([h, case.path, "fresh"], case.ops[:k + 1])
+            samples.append(dict(kind=case.kind, image=case.name, op=case.ops[k], long_lived=strip(o1[k]) if k < len(o1) else "",
+                                fresh=strip(o2[k]) if k < len(o2) else ""))
         # concrete property failures first
         hist = [p for p in probs if p[0] in ("history", "crash", "api-disagree")]
         ties = [p for p in probs if p[0] in ("tie", "model-crash")]
@@ -694,6 +754,14 @@ def run(ctx):
                               dict(image_zhex=zlib.compress(img, 9).hex(), ops=case.ops[:idx + 1], kind=case.kind, detail=detail,
                                    correspondence="props/C10: extracted model == h_reader long (trace)"),
                               no_input=True)
+    if ctx.tier == "thorough" and not ctx.replay:
+        # independent re-check of the compiled theorems by coqchk (lists every axiom)
+        rc, out = core.sh(["timeout", "1200", "coqchk", "-silent", "-o", "-Q", ".", "SqfsV", "SqfsV.Properties_C10"], cwd=core.COQ)
+        ok = rc == 0 and "Axioms: <none>" in out
+        ctx.coverage["coqchk"] = "ok: Axioms <none>" if ok else out[-600:]
+        if not ok:
+            ctx.violation("coqchk", "coqchk does not accept Properties_C10.vo without axioms: " + out[-400:],
+                          dict(kind="proof re-check", detail=out[-2000:]), no_input=True)
     for t in ctx.tie_broken:
         ctx.violation("tie:driver", "model driver cannot be built: " + t, dict(kind="machinery", detail=t), no_input=True)
     ctx.coverage["evaluations"] = stats["ops"]
@@ -701,6 +769,7 @@ def run(ctx):
     ctx.coverage["traces_validated_against_impl"] = stats["cmp_model"]
     ctx.coverage["long_vs_fresh_comparisons"] = stats["cmp_fresh"]
     ctx.coverage["api_agree_files"] = agree_files
+    ctx.coverage["model_timeouts"] = stats.get("model_timeouts", 0)
     ctx.coverage["distribution"] = dist
     ctx.coverage["rule"] = ("seeded op lists (seed %d) over crafted Builder images, gensquashfs images (gzip/xz/lz4/zstd%s; fragments, sparse, "
                             "duplicates, xattrs incl. out-of-line values, ext dirs) and bit-flipped variants; ops = raw meta reader "
